@@ -3,7 +3,9 @@
 TIER=${1:-quick}
 for p in C01 C02 C03 C04 C05 C06 C07 C08 C09 C10 C11 C12 C13 C14 C15 C16 C17 C18 C19 C20; do
   s=$(date +%s)
-  out=$(python3 verif.py check $p --tier $TIER 2>&1)
+  mkdir -p build/sweep
+  python3 verif.py check $p --tier $TIER > build/sweep/$TIER-$p.log 2>&1
   rc=$?
+  out=$(cat build/sweep/$TIER-$p.log)
   echo "$p rc=$rc $(($(date +%s)-s))s $(echo "$out" | grep -a 'OK property\|VIOLATION\|INCONCLUSIVE\|BUILD-ERROR' | head -3 | tr '\n' ' ')"
 done
